@@ -18,7 +18,7 @@
    ktI/ktR (key types 0 Ed25519 1 ECDSA 2 Secp256k1 3 RSA) are not read by the model: the symbolic
    model is uniform in the key type; the dimension is covered by the correspondence. *)
 From Coq Require Import List NArith ZArith Bool.
-From Verif Require Import lib.Wire c01.Model c01.ModelTLS gen.Consts_c01.
+From Verif Require Import lib.Wire c01.Model c01.ModelTLS.
 Import ListNotations.
 Local Open Scope Z_scope.
 
@@ -388,8 +388,8 @@ Definition conform_verify (l : list Z) : list Z :=
   | _ :: exp :: r =>
       match decode_chain r with
       | Some (chain, [cls; kid; dcls; dkid]) =>
-          let '(mc, mk) := res_z (verify_peer tls_self_signature_checked (expect_of exp) chain) in
-          let '(dc, dk) := if forallb parse_ok chain then res_z (pubkey_from_chain tls_self_signature_checked chain) else (8, 0) in
+          let '(mc, mk) := res_z (verify_peer (expect_of exp) chain) in
+          let '(dc, dk) := if forallb parse_ok chain then res_z (pubkey_from_chain chain) else (8, 0) in
           if negb ((mc =? cls) && (mk =? kid)) then [ERR_MISMATCH; 0; mc; mk; cls; kid]
           else if negb ((dc =? dcls) && (dk =? dkid)) then [ERR_MISMATCH; 1; dc; dk; dcls; dkid]
           else []
@@ -462,7 +462,7 @@ Definition conform_tls (l : list Z) : list Z :=
   match decode_tls l with
   | None => [ERR_MALFORMED; 0]
   | Some tc =>
-      let '(rc, rs) := tls_run tls_self_signature_checked (tc_c tc) (tc_s tc) (tedit_of (tc_ek tc) (tc_dir tc) (tc_rec tc)) in
+      let '(rc, rs) := tls_run (tc_c tc) (tc_s tc) (tedit_of (tc_ek tc) (tc_dir tc) (tc_rec tc)) in
       let wp := tc_ek tc =? 0 in
       let mc := tobs_of rc rs wp in let ms := tobs_of rs rc wp in
       if negb (tobs_agree mc (tc_oc tc) wp) then [ERR_MISMATCH; 0; to_cls mc; to_rid mc; to_post mc; to_cls (tc_oc tc); to_rid (tc_oc tc); to_post (tc_oc tc)]
